@@ -156,7 +156,9 @@ func firstLines(s string, n int) string {
 }
 
 func goEnv() []string {
-	return append(os.Environ(), "GOFLAGS=-mod=mod", "GOPROXY=off", "GOSUMDB=off", "GOTOOLCHAIN=local", "CGO_ENABLED=0")
+	verifDir := envOr("VERIF_DIR", "/verif")
+	flags := goFlagsFor(envOr("VERIF_REPO", "/repo"), filepath.Join(verifDir, "harness"))
+	return append(os.Environ(), "GOFLAGS="+flags, "GOPROXY=off", "GOSUMDB=off", "GOTOOLCHAIN=local", "CGO_ENABLED=0")
 }
 
 // buildReplay compiles the native replay command against the current tree of the repository.
@@ -251,7 +253,7 @@ type evidence struct {
 func cmdCheck(argv []string) int {
 	fs := flag.NewFlagSet("check", flag.ExitOnError)
 	workers := fs.Int("workers", 16, "parallel workers")
-	evDir := fs.String("evidence", "/verif/evidence", "evidence directory")
+	evDir := fs.String("evidence", filepath.Join(envOr("VERIF_DIR", "/verif"), "evidence"), "evidence directory")
 	fs.Parse(argv)
 	if fs.NArg() < 2 {
 		fmt.Fprintln(os.Stderr, "usage: gosym check [flags] <property> quick|thorough")
